@@ -375,6 +375,9 @@ def check_case(spec, ctx=None, cnt=None):
     return viol, s
 
 # ====================================================================================== part B: DiskCacher faults
+class _Cut(BaseException):
+    """an interruption that is not an Exception"""
+
 class _FailingFile:
     def __init__(self, f, fail_at): self.f, self.n, self.fail_at = f, 0, fail_at
     def write(self, x):
@@ -402,21 +405,23 @@ def disk_faults(ctx, rng, n_values):
             lines = ["".join(rng.choice("abcé ,x") for _ in range(rng.choice([0, 1, 5, 30]))) for _ in range(nlines)]
             key = f"v{vi}"
             # (1) getter fails at line i / (2) the i-th write call fails: afterwards the entry must be absent and re-populating works
-            for kind in ("getter", "write"):
+            for kind in ("getter", "write", "getter-interrupted"):
+                # getter-interrupted: the getter is cut by something that is not an Exception (Ctrl-C, sys.exit() in a callback)
+                Boom = GetterBoom if kind != "getter-interrupted" else rng.choice([KeyboardInterrupt, SystemExit, _Cut])
                 for i in range(nlines * (2 if kind == "write" else 1) + (0 if kind == "write" else 1)):
                     c = cc.DiskCacher(d)
                     c.rmv(key)
                     def getter():
                         for j, l in enumerate(lines):
-                            if kind == "getter" and j == i: raise GetterBoom(key)
+                            if kind != "write" and j == i: raise Boom(key)
                             yield l
-                        if kind == "getter" and i == nlines: raise GetterBoom(key)
+                        if kind != "write" and i == nlines: raise Boom(key)
                     old = cc.gzip
                     if kind == "write": cc.gzip = _GzipProxy(i)
                     try:
                         try:
                             c.get_set(key, getter).close(); raised = False
-                        except (GetterBoom, OSError): raised = True
+                        except (GetterBoom, OSError, KeyboardInterrupt, SystemExit, _Cut): raised = True
                     finally: cc.gzip = old
                     ctx.count("disk.write-fault"); ctx.case(("disk", kind, nlines, i))
                     if not raised: viol.append((f"M6/disk/{kind}-failure-swallowed", f"failure at {kind} step {i} of {nlines} lines was not raised")); continue
@@ -454,30 +459,34 @@ def memory_faults(ctx, rng, n_values):
         want = [f"m{vi}:{i}" for i in range(n)]
         for kind in ("callable->generator", "generator-object", "callable-raises"):
             for fail_at in range(n + 1 if kind != "callable-raises" else 1):
-                for wrap in ("plain", "concurrent"):
+                for wrap in ("plain", "concurrent", "plain-interrupted", "concurrent-interrupted"):
                     inner = cc.MemoryCacher()
-                    c = inner if wrap == "plain" else cc.ConcurrentCacher(inner)
+                    c = inner if wrap.startswith("plain") else cc.ConcurrentCacher(inner)
+                    Boom = GetterBoom if not wrap.endswith("-interrupted") else rng.choice([KeyboardInterrupt, SystemExit, _Cut])
                     def gen():
                         for j, x in enumerate(want):
-                            if j == fail_at: raise GetterBoom("memory")
+                            if j == fail_at: raise Boom("memory")
                             yield x
-                        if fail_at == n: raise GetterBoom("memory")
-                    def boom(): raise GetterBoom("memory")
+                        if fail_at == n: raise Boom("memory")
+                    def boom(): raise Boom("memory")
                     getter = gen if kind == "callable->generator" else gen() if kind == "generator-object" else boom
                     try:
                         with c.get_set("k", getter) as v: got0 = v
                         raised = False
-                    except GetterBoom: raised = True
+                    except (GetterBoom, KeyboardInterrupt, SystemExit, _Cut): raised = True
                     ctx.count("memory.getter-fault"); ctx.case(("memory", kind, n, fail_at, wrap))
                     if not raised:
                         viol.append((f"M6/memory/{kind}-failure-swallowed", f"getter failing at step {fail_at} of {n} was not raised (served {got0!r})")); continue
                     calls = []
                     def good():
                         calls.append(1); return list(want)
-                    with c.get_set("k", good) as v: got = list(v) if v is not None else v
+                    try:
+                        with c.get_set("k", good) as v: got = list(v) if v is not None else v
+                    except Exception as e:
+                        viol.append((f"M4/memory/{kind}{'-interrupted' if wrap.endswith('-interrupted') else ''}-failure-leaves-lock-held", f"after a getter cut by {Boom.__name__} at step {fail_at}: the next get_set raised {type(e).__name__}: {e}")); continue
                     if got != want or not calls:
                         viol.append((f"M6/memory/{kind}-failure-leaves-entry-served-as-complete", f"after a getter that failed at step {fail_at}: next get_set served {got!r} (getter ran {len(calls)}x) instead of {want}"))
-                    if wrap == "concurrent" and any(x != 0 for x in c._array):
+                    if wrap.startswith("concurrent") and any(x != 0 for x in c._array):
                         viol.append(("M4/memory/shared-counter-not-zero-after-getter-failure", "counters not zero")); 
     return viol
 
